@@ -131,10 +131,45 @@ def _edits_for(fn_node, src_lines):
                     yield (sl.lineno, sl.col_offset, sl.end_col_offset, "None", "[:, None] -> [None]")
             elif isinstance(sl, ast.Constant) and sl.value is None:
                 yield (sl.lineno, sl.col_offset, sl.end_col_offset, ":, None", "[None] -> [:, None]")
+        # ---- second operator family (attribute / dimension confusions, dropped terms, comparison and slice edges)
+        if isinstance(node, ast.Attribute) and node.lineno == node.end_lineno and isinstance(node.ctx, ast.Load):
+            swaps = {"Sigma": "Lambda", "Lambda": "Sigma", "ln_det_Sigma": "ln_det_Lambda", "ln_det_Lambda": "ln_det_Sigma",
+                     "Dx": "Dy", "Dy": "Dx", "mu": "nu", "nu": "mu"}
+            if node.attr in swaps:
+                start = node.end_col_offset - len(node.attr)
+                yield (node.lineno, start, node.end_col_offset, swaps[node.attr], f"attribute .{node.attr} -> .{swaps[node.attr]}")
+            if node.attr == "R" and isinstance(node.value, ast.Name) and node.value.id in ("self", "measure", "p_x"):
+                other = {"self": "measure", "measure": "self", "p_x": "self"}[node.value.id]
+                yield (node.lineno, node.col_offset, node.end_col_offset, f"{other}.R", f"owner {node.value.id}.R -> {other}.R")
+        if isinstance(node, ast.BinOp) and isinstance(node.op, (ast.Add, ast.Sub)) and node.lineno == node.end_lineno:
+            # drop the right-hand term
+            yield (node.lineno, node.left.end_col_offset, node.right.end_col_offset, "", "term dropped")
+        if isinstance(node, ast.BinOp) and isinstance(node.op, ast.Mult) and node.lineno == node.end_lineno:
+            for side in (node.left, node.right):
+                if isinstance(side, ast.Constant) and isinstance(side.value, (int, float)) and side.value in (2, 2.0, 0.5, -0.5):
+                    if side is node.left:
+                        yield (node.lineno, node.left.col_offset, node.right.col_offset, "", f"factor {side.value} dropped")
+        if isinstance(node, ast.BinOp) and isinstance(node.op, ast.Pow) and isinstance(node.right, ast.Constant) and node.right.value == 2 \
+                and node.lineno == node.end_lineno:
+            yield (node.right.lineno, node.right.col_offset, node.right.end_col_offset, "1", "power 2 -> 1")
+        if isinstance(node, ast.Compare) and len(node.ops) == 1 and node.lineno == node.end_lineno:
+            gap = src_lines[node.lineno - 1][node.left.end_col_offset:node.comparators[0].col_offset]
+            rep = {">": ">=", ">=": ">", "<": "<=", "<=": "<", "==": "!=", "!=": "=="}
+            g = gap.strip()
+            if g in rep:
+                pos = node.left.end_col_offset + gap.index(g)
+                yield (node.lineno, pos, pos + len(g), rep[g], f"comparison {g} -> {rep[g]}")
+        if isinstance(node, ast.Slice) and getattr(node, "lineno", None) and node.lineno == node.end_lineno:
+            if node.lower is not None and node.upper is None and node.step is None:
+                lo = src_lines[node.lineno - 1][node.lower.col_offset:node.lower.end_col_offset]
+                yield (node.lineno, node.col_offset, node.end_col_offset, ":" + lo, f"slice {lo}: -> :{lo}")
+            elif node.lower is None and node.upper is not None and node.step is None:
+                up = src_lines[node.lineno - 1][node.upper.col_offset:node.upper.end_col_offset]
+                yield (node.lineno, node.col_offset, node.end_col_offset, up + ":", f"slice :{up} -> {up}:")
     _ = doc
 
 
-def gen(per_function=4, seed=1):
+def gen(per_function=4, seed=1, exclude=None, out='mutants.json'):
     rnd = random.Random(seed)
     muts = []
     for rel in FILES:
@@ -158,6 +193,8 @@ def gen(per_function=4, seed=1):
             # de-duplicate and sample
             uniq = {}
             for e in eds:
+                if exclude and (rel, e[0], e[1], e[2], e[3]) in exclude:
+                    continue
                 uniq[(e[0], e[1], e[2], e[3])] = e
             eds = sorted(uniq.values())
             rnd.shuffle(eds)
@@ -177,7 +214,7 @@ def gen(per_function=4, seed=1):
     os.makedirs(SCR, exist_ok=True)
     for k, m in enumerate(muts):
         m["id"] = k
-    with open(os.path.join(SCR, "mutants.json"), "w") as fh:
+    with open(os.path.join(SCR, out), "w") as fh:
         json.dump(muts, fh, indent=0)
     print(len(muts), "mutants")
 
@@ -232,10 +269,10 @@ def _run_one(m, line_map, max_obs):
     return res
 
 
-def run(parallel=4, max_obs=24, start=0, stop=None):
-    muts = json.load(open(os.path.join(SCR, "mutants.json")))
+def run(parallel=4, max_obs=24, start=0, stop=None, name="mutants.json", results="results.jsonl"):
+    muts = json.load(open(os.path.join(SCR, name)))
     line_map = json.load(open(os.environ.get("GTV_LINE_MAP", "/tmp/line_map.json")))
-    out_path = os.path.join(SCR, "results.jsonl")
+    out_path = os.path.join(SCR, results)
     done = set()
     if os.path.exists(out_path):
         for l in open(out_path):
@@ -255,9 +292,9 @@ def _safe(m, line_map, max_obs):
         return dict(id=m["id"], status="error", error=f"{type(ex).__name__}: {ex}"[:300])
 
 
-def report():
-    muts = {m["id"]: m for m in json.load(open(os.path.join(SCR, "mutants.json")))}
-    res = [json.loads(l) for l in open(os.path.join(SCR, "results.jsonl"))]
+def report(name="mutants.json", results="results.jsonl"):
+    muts = {m["id"]: m for m in json.load(open(os.path.join(SCR, name)))}
+    res = [json.loads(l) for l in open(os.path.join(SCR, results))]
     cnt = {}
     for r in res:
         cnt[r["status"]] = cnt.get(r["status"], 0) + 1
@@ -272,7 +309,20 @@ if __name__ == "__main__":
     cmd = sys.argv[1]
     if cmd == "gen":
         gen(int(sys.argv[2]) if len(sys.argv) > 2 else 4)
+    elif cmd == "gen2":
+        # second round: other seed, more mutants per function, the mutants of round 1 excluded
+        prev = set()
+        p1 = os.path.join(SCR, "mutants.json")
+        if os.path.exists(p1):
+            for m in json.load(open(p1)):
+                prev.add((m["file"], m["line"], m["col"], m["end_col"], m["new"]))
+        gen(int(sys.argv[2]) if len(sys.argv) > 2 else 6, seed=2, exclude=prev, out="mutants2.json")
     elif cmd == "run":
         run(parallel=int(sys.argv[2]) if len(sys.argv) > 2 else 4, max_obs=int(sys.argv[3]) if len(sys.argv) > 3 else 24)
+    elif cmd == "run2":
+        run(parallel=int(sys.argv[2]) if len(sys.argv) > 2 else 4, max_obs=int(sys.argv[3]) if len(sys.argv) > 3 else 24,
+            name="mutants2.json", results="results2.jsonl")
+    elif cmd == "report2":
+        report("mutants2.json", "results2.jsonl")
     else:
         report()
